@@ -344,7 +344,7 @@ theorem incSpec_eq (g : Graph) (x : Int) : incSpec g x = incRow (R1 g x ++ R2 g 
 variable {g : Graph} {x : Int} {sub : Graph} {anchors : List Nat}
 
 theorem Dom0.x_not_h (d : Dom0 g x sub) : x ∉ (hOf g sub).nodeIds := by
-  rw [d.h_nodeIds, mem_map_add, mem_upto]
+  rw [d.h_nodeIds.mem_iff, mem_map_add, mem_upto]
   have := d.x_range; omega
 
 /-- the row of `x` after the composition step -/
